@@ -328,7 +328,7 @@ func checkDec(tt *testing.T, c DecCase) (pbt.Info, error) {
 	return info, nil
 }
 
-var malformedSeeds = []string{"5", "S", "5s", "5x", "5 S", " 5S", "5S ", "1.5S", "1e3S", "0x5S", "abcS", "999999999S", "100000000n", "１S", "5Ｓ", "5\x00S", "SS", "5SS", "--5S", "+S", "5µ", "n5", "18446744073709551616n", ""}
+var malformedSeeds = []string{"5", "S", "5s", "5x", "5 S", " 5S", "5S ", "1.5S", "1e3S", "0x5S", "abcS", "999999999S", "100000000n", "１S", "5Ｓ", "5\x00S", "SS", "5SS", "--5S", "+S", "5µ", "n5", "18446744073709551616n", "", "10000000000S", "100000000H", "999999999999M", "99999999999999999u", "123456789012345678901234567890n"}
 
 var specDec = pbt.Spec[DecCase]{
 	Prop: "C10", Name: "decode",
@@ -347,9 +347,22 @@ var specDec = pbt.Spec[DecCase]{
 		case 2:
 			c.Header = rapid.SampledFrom(malformedSeeds).Draw(t, "seed")
 			if c.Protocol == "connect" {
-				c.Header = rapid.SampledFrom([]string{"5S", "5m", "abc", "1.5", "1e3", "0x10", "12345678901", "99999999999999999999", " 5", "5 ", "５", "5\x00", "--5", "", "1,000"}).Draw(t, "cseed")
+				c.Header = rapid.SampledFrom([]string{"5S", "5m", "abc", "1.5", "1e3", "0x10", "12345678901", "99999999999999999999", " 5", "5 ", "５", "5\x00", "--5", "", "1,000", "10000000000", "123456789012345678901234567890"}).Draw(t, "cseed")
 			}
 		case 3:
+			if rapid.Bool().Draw(t, "overlong") {
+				// more digits than the grammar allows, first digit non-zero (so the
+				// magnitude is beyond the limit, possibly beyond time.Duration)
+				n := rapid.IntRange(9, 25).Draw(t, "ndigits")
+				if c.Protocol == "connect" {
+					n = rapid.IntRange(11, 25).Draw(t, "cdigits")
+				}
+				c.Header = rapid.StringMatching(fmt.Sprintf("[1-9][0-9]{%d}", n-1)).Draw(t, "digits")
+				if c.Protocol != "connect" {
+					c.Header += rapid.SampledFrom([]string{"H", "M", "S", "m", "u", "n"}).Draw(t, "unit")
+				}
+				break
+			}
 			// near-grammatical: mutate a grammatical one
 			base := "1234S"
 			if c.Protocol == "connect" {
